@@ -389,5 +389,16 @@ fn replay(drv: &mut Drv, rep: &mut Report, case: &str) {
         if got != exp {
             rep.disagree(Disagreement { case: case.to_string(), got, expected: exp, class: "violation", obligation: "tie2: read_frame/reset_animation/read_image = Anim.run".into(), detail: "replayed".into() });
         }
+    } else if p[0] == "animfault" {
+        // `animfault at=<offset> <filehex> <ops>`
+        let at: u64 = p[1].trim_start_matches("at=").parse().unwrap_or(0);
+        let file = unhex(p[2]);
+        let ops = p[3];
+        let clean = run_ops(&file, ops, false);
+        let (got, _) = run_ops_faulty(&file, ops, at);
+        rep.case(case, true);
+        if got != clean {
+            rep.disagree(Disagreement { case: case.to_string(), got, expected: clean, class: "violation", obligation: "C06: the k-th SUCCESSFUL read_frame returns the k-th canvas of the fold (a failed and repeated read_frame does not count)".into(), detail: "replayed".into() });
+        }
     }
 }
